@@ -383,6 +383,9 @@ func SuffixFrom(s string, n int) string {
 	return s[n:]
 }
 
+// NaN: a float64 NaN (a value JSON cannot carry).
+func NaN() float64 { return math.NaN() }
+
 // IsNaN (intrinsic).
 func IsNaN(f float64) bool { return f != f }
 
